@@ -398,13 +398,17 @@ def run(seed, tier, budget_s):
         for j in range(i, min(n, i + step)):
             rng = core.run_rng(seed, PID, j)
             plans.append(gen_plan(rng, j, fault_population=(j % 10 == 9)))
-        for p, r in zip(plans, core.map_plans(MOD, plans, chunk=8)):
+        _res = core.map_plans(MOD, plans, chunk=8)
+        for p, r in zip(plans, _res):
             batch.add(p, r)
             if len(batch.samples) < 3 and r.get('nontrivial') and \
                     len(p['files']) >= 3:
                 batch.samples.append({'argv': p['argv'],
                                       'edges': plan_edges(p),
                                       'skip': p['skip']})
+        if i == 0:
+            core.cross_validate(MOD, batch, list(zip(plans, _res)),
+                                12 if tier == 'quick' else 60)
         i += step
     small = [s for s in batch.nontrivial
              if len(json.loads(s)[0]) <= 3]
